@@ -580,6 +580,15 @@ func (idx *Index) Put(key []byte, location types.Block) error {
 
 // Update updates a key together with a file offset into the index.
 func (idx *Index) Update(key []byte, location types.Block) error {
+	_, err := idx.update(key, nil, location)
+	return err
+}
+
+// Replace updates a key like Update, and returns the location that the index
+// mapped the key to until now. That location may differ from the one a caller
+// looked up earlier, since GC relocates records without holding the caller's
+// lock.
+func (idx *Index) Replace(key []byte, location types.Block) (types.Block, error) {
 	return idx.update(key, nil, location)
 }
 
@@ -587,14 +596,15 @@ func (idx *Index) Update(key []byte, location types.Block) error {
 // if the index does not currently map the key to prev, which means that the
 // key was updated or removed after the caller looked at the record at prev.
 func (idx *Index) Relocate(key []byte, prev, location types.Block) error {
-	return idx.update(key, &prev, location)
+	_, err := idx.update(key, &prev, location)
+	return err
 }
 
-func (idx *Index) update(key []byte, prev *types.Block, location types.Block) error {
+func (idx *Index) update(key []byte, prev *types.Block, location types.Block) (types.Block, error) {
 	// Get record list and bucket index
 	bucket, err := idx.getBucketIndex(key)
 	if err != nil {
-		return err
+		return types.Block{}, err
 	}
 
 	// The key does not need the prefix that was used to find its bucket. For
@@ -605,48 +615,58 @@ func (idx *Index) update(key []byte, prev *types.Block, location types.Block) er
 	defer idx.bucketLk.Unlock()
 	records, err := idx.getRecordsFromBucket(bucket)
 	if err != nil {
-		return err
+		return types.Block{}, err
 	}
 
 	var newData []byte
 	// If no records are stored in that bucket yet, it means there is no key to
 	// be updated.
 	if records == nil {
-		return fmt.Errorf("no records found in index, unable to update key")
+		return types.Block{}, fmt.Errorf("no records found in index, unable to update key")
 	}
 
 	// Read the record list to find the key and position.
 	r := records.GetRecord(indexKey)
 	if r == nil {
-		return fmt.Errorf("key to update not found in index")
+		return types.Block{}, fmt.Errorf("key to update not found in index")
 	}
 	if prev != nil && r.Block != *prev {
-		return fmt.Errorf("key to update is no longer at the expected location")
+		return types.Block{}, fmt.Errorf("key to update is no longer at the expected location")
 	}
 	// Update key in position.
 	newData = records.PutKeys([]KeyPositionPair{{r.Key, location}}, r.Pos, r.NextPos())
 
 	idx.outstandingWork += types.Work(len(newData) + BucketPrefixSize + sizePrefixSize)
 	idx.nextPool[bucket] = newData
-	return nil
+	return r.Block, nil
 }
 
 // Remove removes a key from the index.
 func (idx *Index) Remove(key []byte) (bool, error) {
+	_, removed, err := idx.remove(key, nil)
+	return removed, err
+}
+
+// Take removes a key like Remove, and returns the location that the index
+// mapped the key to until now. That location may differ from the one a caller
+// looked up earlier, since GC relocates records without holding the caller's
+// lock.
+func (idx *Index) Take(key []byte) (types.Block, bool, error) {
 	return idx.remove(key, nil)
 }
 
 // RemoveAt removes a key from the index only if the index currently maps the
 // key to the given location.
 func (idx *Index) RemoveAt(key []byte, location types.Block) (bool, error) {
-	return idx.remove(key, &location)
+	_, removed, err := idx.remove(key, &location)
+	return removed, err
 }
 
-func (idx *Index) remove(key []byte, prev *types.Block) (bool, error) {
+func (idx *Index) remove(key []byte, prev *types.Block) (types.Block, bool, error) {
 	// Get record list and bucket index
 	bucket, err := idx.getBucketIndex(key)
 	if err != nil {
-		return false, err
+		return types.Block{}, false, err
 	}
 
 	// The key does not need the prefix that was used to find its bucket. For
@@ -658,25 +678,25 @@ func (idx *Index) remove(key []byte, prev *types.Block) (bool, error) {
 
 	records, err := idx.getRecordsFromBucket(bucket)
 	if err != nil {
-		return false, err
+		return types.Block{}, false, err
 	}
 
 	// If no records are stored in that bucket yet, it means there is no key to
 	// be removed.
 	if records == nil {
 		// No records in index. Nothing to remove.
-		return false, nil
+		return types.Block{}, false, nil
 	}
 
 	// Read the record list to find the key and its position.
 	r := records.GetRecord(indexKey)
 	if r == nil {
 		// The record does not exist. Nothing to remove.
-		return false, nil
+		return types.Block{}, false, nil
 	}
 	if prev != nil && r.Block != *prev {
 		// The key is no longer at the expected location.
-		return false, nil
+		return types.Block{}, false, nil
 	}
 
 	// Remove key from record.
@@ -688,7 +708,7 @@ func (idx *Index) remove(key []byte, prev *types.Block) (bool, error) {
 
 	idx.outstandingWork += types.Work(len(newData) + BucketPrefixSize + sizePrefixSize)
 	idx.nextPool[bucket] = newData
-	return true, nil
+	return r.Block, true, nil
 }
 
 func (idx *Index) getBucketIndex(key []byte) (BucketIndex, error) {
